@@ -191,6 +191,13 @@ def main(argv):
         if time.time() - last_flush > 3:
             flush()
             last_flush = time.time()
+    try:
+        from .core import decomp as _decomp
+        for route, nr in _decomp.ROUTES.items():
+            if nr:
+                ctx.count("decomposition_entry_point/%s" % route, nr)
+    except Exception:  # noqa
+        pass
     if not ctx.samples:
         ctx.samples = [{"case": c} for c in mine[:2]]
     if hasattr(prop, "teardown_worker"):
